@@ -40,6 +40,7 @@ def order_is(st, o, agent, market_id, is_buy, volume, price, ttl):
 
 ORDER_FIELDS = ["agent_id", "market_id", "is_buy", "kind", "volume", "placed_at", "price", "order_id", "ttl", "is_canceled"]
 ORDER_MODS = [("f:Order." + f, []) for f in ORDER_FIELDS] + ["len", "mem", "el:Ref", "nodup", "heapok"]
+ORDER_MODS_TIGHT = [("f:Order." + f, []) for f in ORDER_FIELDS] + [(k, []) for k in ("len", "mem", "el:Ref", "nodup", "heapok")]       # only objects created by the call
 
 
 # ----------------------------------------------------------------------------- FCNAgent.submit_orders_by_market
@@ -213,11 +214,10 @@ def arb_pre(st, a):
             ("the index has at least one component", st.length(comps) >= 1)]
 
 
-def arb_post(st0, st1, a, res):
-    ag, m = a["self"], a["market"]
+def arb_basket_clauses(st0, st1, ag, m, rel, base, n):
+    """the basket that market `m` calls for (read in st0) occupies rel[base .. base+n) (orders read in st1)"""
     ix = V(("ref", "IndexMarket"), m.term)
     comps = st0.read(ix, "_components").term; cel = st0.elems(comps, ("ref", "Market")); nc = st0.length(comps)
-    n = st1.length(res.term); rel = st1.elems(res.term, ("ref", "Order"))
     i = z3.Int("i_arbp")
     t = st0.read(m, "time").term
     mp = MP(m.term, t); idx = IDX(m.term); thr = to_real(st0.read(ag, "order_threshold_price"))
@@ -227,16 +227,23 @@ def arb_post(st0, st1, a, res):
     active = z3.And(is_instance("IndexMarket", m.term), accessible(st0, ag, st0.read(m, "market_id").term), run[m.term], allrun)
     cheap = z3.And(mp < idx, idx - mp > thr); dear = z3.And(mp > idx, mp - idx > thr)
     def basket(index_buys):
-        comp_i = z3.Select(cel, i - 1)
-        return z3.And(n == nc + 1, order_is(st1, z3.Select(rel, 0), ag, st0.read(m, "market_id").term, index_buys, nc * v, mp, ttl),
-                      z3.ForAll([i], z3.Implies(z3.And(1 <= i, i <= nc), order_is(st1, z3.Select(rel, i), ag, st0.F("Market", "market_id")[comp_i], not index_buys, v,
-                                                                                   MP(comp_i, st0.F("Market", "time")[comp_i]), ttl))))
+        comp_i = z3.Select(cel, i - base - 1)
+        return z3.And(n == nc + 1, order_is(st1, z3.Select(rel, base), ag, st0.read(m, "market_id").term, index_buys, nc * v, mp, ttl),
+                      z3.ForAll([i], z3.Implies(z3.And(base + 1 <= i, i <= base + nc), order_is(st1, z3.Select(rel, i), ag, st0.F("Market", "market_id")[comp_i], not index_buys, v,
+                                                                                                 MP(comp_i, st0.F("Market", "time")[comp_i]), ttl))))
     return [("C20 no order unless the market is an accessible, running index market whose components all run and the gap exceeds the threshold", z3.Implies(z3.Not(z3.And(active, z3.Or(cheap, dear))), n == 0)),
             ("C20 index below the computed index by more than the threshold: buy n x v of the index, sell v of every component", z3.Implies(z3.And(active, cheap), basket(True))),
             ("C20 index above the computed index by more than the threshold: sell n x v of the index, buy v of every component", z3.Implies(z3.And(active, dear), basket(False)))]
 
 
-ARB_SUBMIT = FSpec("ArbitrageAgent._submit_orders", pre=arb_pre, post=arb_post, props=("C20",), fresh_result=True, result=("list", ("ref", "Order")), modifies=lambda st, a: ORDER_MODS)
+def arb_post(st0, st1, a, res):
+    ag, m = a["self"], a["market"]
+    n = st1.length(res.term); rel = st1.elems(res.term, ("ref", "Order")); j = z3.Int("j_arbf")
+    return arb_basket_clauses(st0, st1, ag, m, rel, z3.IntVal(0), n) + [
+        ("every returned order is an object created by this call", z3.ForAll([j], z3.Implies(z3.And(0 <= j, j < n), z3.And(z3.Not(st0.is_alloc(z3.Select(rel, j))), st1.is_alloc(z3.Select(rel, j))))))]
+
+
+ARB_SUBMIT = FSpec("ArbitrageAgent._submit_orders", pre=arb_pre, post=arb_post, props=("C20",), fresh_result=True, result=("list", ("ref", "Order")), modifies=lambda st, a: ORDER_MODS_TIGHT)
 ARB_SUBMIT.may_raise = {"NotImplementedError": lambda st, a: z3.BoolVal(True)}      # components with unequal outstanding shares are refused (documented limitation)
 
 
@@ -262,6 +269,88 @@ def arb_loops(index_buys):
 @task("ArbitrageAgent._submit_orders", props=["C20"], functions=["ArbitrageAgent._submit_orders", "IndexMarket.is_all_markets_running", "IndexMarket.get_components"], replay="agents", heavy=True)
 def t_arbitrage():
     obl, info = ARB_SUBMIT.verify(specs=arb_specs(), loops={0: arb_loops(True), 1: arb_loops(False)})
+    return {"obligations": obl, "info": [info]}
+
+
+# ----------------------------------------------------------------------------- ArbitrageAgent.submit_orders: the result is the concatenation, in list order, of the baskets of the listed markets (C20)
+ARB_OFF = z3.Function("arb_basket_offset", z3.IntSort(), z3.IntSort())       # spec function: where the basket of the k-th listed market starts in the result
+ARB_LEN = z3.Function("arb_basket_length", z3.IntSort(), z3.IntSort())       # spec function: its length (0, or 1 + number of components), determined by the entry state
+
+
+def _arb_market(st, a, k):
+    ms = a["markets"]
+    return V(("ref", "Market"), z3.Select(st.elems(ms.term, ("ref", "Market")), k))
+
+
+def arb_len_def(st0, a, k):
+    """ARB_LEN(k) / ARB_OFF(k+1) for one k, read in the entry state"""
+    ag = a["self"]; m = _arb_market(st0, a, k)
+    ix = V(("ref", "IndexMarket"), m.term)
+    comps = st0.read(ix, "_components").term; cel = st0.elems(comps, ("ref", "Market")); nc = st0.length(comps)
+    i = z3.Int("i_arbd")
+    t = st0.read(m, "time").term
+    mp = MP(m.term, t); idx = IDX(m.term); thr = to_real(st0.read(ag, "order_threshold_price"))
+    run = st0.F("Market", "_is_running")
+    allrun = z3.ForAll([i], z3.Implies(z3.And(0 <= i, i < nc), run[z3.Select(cel, i)]))
+    active = z3.And(is_instance("IndexMarket", m.term), accessible(st0, ag, st0.read(m, "market_id").term), run[m.term], allrun)
+    gap = z3.Or(z3.And(mp < idx, idx - mp > thr), z3.And(mp > idx, mp - idx > thr))
+    return z3.And(ARB_LEN(k) == z3.If(z3.And(active, gap), nc + 1, 0), ARB_OFF(k + 1) == ARB_OFF(k) + ARB_LEN(k))
+
+
+def arb_wrap_axioms(st0, a):
+    k = z3.Int("k_arbx"); nm = st0.length(a["markets"].term)
+    return [ARB_OFF(0) == 0, z3.ForAll([k], z3.Implies(z3.And(0 <= k, k < nm), arb_len_def(st0, a, k)), patterns=[ARB_LEN(k)])]
+
+
+def arb_wrap_pre(st, a):
+    k = z3.Int("k_arbw"); nm = st.length(a["markets"].term)
+    m = _arb_market(st, a, k)
+    per = z3.And(*[f for _, f in arb_pre(st, {"self": a["self"], "market": m})])
+    closed = z3.And(st.is_alloc(m.term), st.is_alloc(st.read(V(("ref", "IndexMarket"), m.term), "_components").term))
+    return [("len >= 0", nm >= 0), ("every listed index market satisfies the basket preconditions", z3.ForAll([k], z3.Implies(z3.And(0 <= k, k < nm), per))),
+            ("closed heap: the listed markets and their component lists are existing objects", z3.ForAll([k], z3.Implies(z3.And(0 <= k, k < nm), closed)))]
+
+
+def arb_wrap_post(st0, st1, a, res):
+    k = z3.Int("k_arbq"); nm = st0.length(a["markets"].term)
+    rel = st1.elems(res.term, ("ref", "Order"))
+    per = z3.And(*[f for _, f in arb_basket_clauses(st0, st1, a["self"], _arb_market(st0, a, k), rel, ARB_OFF(k), ARB_LEN(k))])
+    return [("C20 the result has exactly the orders of the baskets", st1.length(res.term) == ARB_OFF(nm)),
+            ("C20 the basket of the k-th listed market occupies result[offset(k) .. offset(k+1)) - nothing dropped, repeated, reordered or added", z3.ForAll([k], z3.Implies(z3.And(0 <= k, k < nm), per), patterns=[ARB_LEN(k)]))]
+
+
+ARB_WRAP = FSpec("ArbitrageAgent.submit_orders", pre=arb_wrap_pre, post=arb_wrap_post, props=("C20",), fresh_result=True, result=("list", ("ref", "Order")), modifies=lambda st, a: ORDER_MODS_TIGHT,
+                 axioms=arb_wrap_axioms)
+ARB_WRAP.may_raise = {"NotImplementedError": lambda st, a: z3.BoolVal(True)}
+
+
+def arb_wrap_loops():
+    def args(st):
+        return {"self": st.env["self"], "markets": st.env["markets"]}
+
+    def inv(st, ctx):
+        i = ctx["i"]; ent = ctx["fn_entry"]; a = args(st)
+        orders = st.env["orders"].term; rel = st.elems(orders, ("ref", "Order"))
+        k, j = z3.Ints("k_arbi j_arbi")
+        per = z3.And(*[f for _, f in arb_basket_clauses(ent, st, a["self"], _arb_market(ent, a, k), rel, ARB_OFF(k), ARB_LEN(k))])
+        return [("the orders collected so far are exactly the baskets of the markets handled so far", st.length(orders) == ARB_OFF(i)),
+                ("offsets grow", z3.ForAll([k], z3.Implies(z3.And(0 <= k, k < i), z3.And(0 <= ARB_OFF(k), ARB_OFF(k) <= ARB_OFF(k + 1), ARB_OFF(k + 1) <= ARB_OFF(i))), patterns=[ARB_LEN(k)])),
+                ("baskets so far", z3.ForAll([k], z3.Implies(z3.And(0 <= k, k < i), per), patterns=[ARB_LEN(k)])),
+                ("the result list and its orders are objects created by this call",
+                 z3.And(z3.Not(ent.is_alloc(orders)), st.is_alloc(orders), z3.ForAll([j], z3.Implies(z3.And(0 <= j, j < st.length(orders)), z3.And(z3.Not(ent.is_alloc(z3.Select(rel, j))), st.is_alloc(z3.Select(rel, j)))))))]
+
+    def on_iter(ex, st, ctx):
+        # the defining equations of the two spec functions at the current index (an instance of the axiom)
+        st.assume(arb_len_def(ctx["fn_entry"], args(st), ctx["i"]))
+    return {0: LoopSpec(inv, modifies=lambda st, ctx: ORDER_MODS_TIGHT, header="markets", name="baskets", on_iter=on_iter, frame_since_entry=True)}
+
+
+@task("ArbitrageAgent.submit_orders", props=["C20"], functions=["ArbitrageAgent.submit_orders"], replay="agents")
+def t_arbitrage_wrapper():
+    """lemma over the contract of _submit_orders: the public entry point concatenates the per-market baskets"""
+    specs = arb_specs()
+    specs[("m", "ArbitrageAgent", "_submit_orders")] = ARB_SUBMIT.handler()
+    obl, info = ARB_WRAP.verify(specs=specs, loops=arb_wrap_loops())
     return {"obligations": obl, "info": [info]}
 
 
